@@ -48,7 +48,11 @@ func StartChild(prop, kind, cfgText string, env ...string) (*Child, error) {
 	if err != nil {
 		return nil, err
 	}
-	c.Cmd = exec.Command(filepath.Join(Root(), ".bin", "vnode"), kind, cfg)
+	vn := "vnode"
+	if os.Getenv("VERIF_REPO") != "" {
+		vn = "vnode-alt"
+	}
+	c.Cmd = exec.Command(filepath.Join(Root(), ".bin", vn), kind, cfg)
 	c.Cmd.Stdout, c.Cmd.Stderr = outF, errF
 	c.Cmd.Env = append(os.Environ(), "GORACE=halt_on_error=0 exitcode=0 log_path="+c.RaceLog)
 	c.Cmd.Env = append(c.Cmd.Env, env...)
